@@ -19,7 +19,7 @@ from ..monitors import EvalTracer
 
 glom = env.bind()
 import glom.core as gcore  # noqa: E402
-from glom import (T, S, A, M, Val, Spec, Pipe, Coalesce, And, Or, Switch, Match, Vars, Ref, Auto, Regex, GlomError, Required,  # noqa: E402
+from glom import (T, S, A, M, Val, Spec, Pipe, Coalesce, And, Or, Switch, Match, Vars, Ref, Auto, Regex, GlomError, Required, Path, Glommer,  # noqa: E402
                   glom as G)
 
 META = {
@@ -152,6 +152,10 @@ class TreeGen:
 
     def leaf(self):
         r = self.rng.random()
+        if r < 0.07:
+            # an identity step: it hands its target on and binds nothing, whichever way it is written
+            self.kinds.add('identity-step')
+            return Node('pass', self.rng.choice([T, T, Path(), Spec(T), Auto(T), Pipe(T)]))
         if r < 0.45:
             return self.reader()
         if r < 0.9:
@@ -596,6 +600,40 @@ def spec_glom_entry(col):
 
 
 
+def glommer_scope_is_copied(col):
+    """Glommer(scope=m) freezes a COPY of m: the caller's mapping (a plain dict or a ChainMap) is never written to, its values are
+    readable through S, a later change of m is not seen, and two Glommers built from one mapping do not share anything"""
+    from collections import ChainMap
+    for kind in ('dict', 'ChainMap'):
+        caller = {'x': 'caller-x'} if kind == 'dict' else ChainMap({'x': 'caller-x'}, {'y': 'lower-y'})
+        before = snapshot(caller)
+        built = call(lambda: (Glommer(scope=caller), Glommer(scope=caller, register_default_types=False)))
+        col.case(('glommer-scope', kind), True)
+        col.count('reader_observations')
+        if not built.ok:
+            col.violation('C07/glommer-scope-rejected', 'Glommer(scope=<%s>) raised %r' % (kind, built.exc), None)
+            continue
+        g1, g2 = built.value
+        if snapshot(caller) != before:
+            col.violation('C07/caller-scope-modified:Glommer', 'Glommer(scope=<%s>) changed the caller mapping: now %d keys %r'
+                          % (kind, len(caller), sorted(map(repr, caller))[:6]), None)
+            continue
+        got = call(g1.glom, {'a': [1]}, {'x': Coalesce(S.x, default=ABSENT), 'first': ('a', [T]), 'again': 'a.0'})
+        if not got.ok or got.value != {'x': 'caller-x', 'first': [1], 'again': 1}:
+            col.violation('C07/glommer-scope-shared-between-glommers', 'the first of two Glommers built from one %s (the second without default types): %r' % (kind, got), None)
+            continue
+        caller['x'] = 'changed-later'
+        got = call(g1.glom, 1, Coalesce(S.x, default=ABSENT))
+        if not got.ok or got.value != 'caller-x':
+            col.violation('C07/glommer-scope-not-frozen', 'after the caller changed its mapping, a Glommer built from it reads %r' % (got,), None)
+        if snapshot({k: v for k, v in caller.items() if k != 'x'}) != snapshot({k: v for k, v in dict(before_items(kind)).items() if k != 'x'}):
+            col.violation('C07/caller-scope-modified:Glommer', 'glom calls through the Glommer changed the caller mapping: %r' % sorted(map(repr, caller)), None)
+
+
+def before_items(kind):
+    return {'x': 'caller-x'} if kind == 'dict' else {'x': 'caller-x', 'y': 'lower-y'}
+
+
 def literal_bindings_do_not_outlive_the_call(col):
     """S(name=<container literal>) binds a container built for THIS call: mutating it in place through the scope (A.name[key],
     S.name.append(..)) is invisible to the next evaluation of the same spec object, and to sibling evaluations of the step"""
@@ -906,6 +944,7 @@ def run(ctx):
         if ctx.shard == 0:
             systematic(col, rng, tracer)
             spec_glom_entry(col)
+            glommer_scope_is_copied(col)
             matchdict_two_keys(col, rng)
             literal_bindings_do_not_outlive_the_call(col)
             deep_shadowing(col)
